@@ -15,10 +15,16 @@
 #   * the one call that has put something into the image but not everything is "in flight": each key it
 #     touches may show its state before or after that call (per key, as the property states);
 #   * nothing else is admissible: torn / foreign / resurrected / stale values are violations.
-# The clock is frozen by the harness (every process sees ~T0), TTLs are >= 100000 s and every expiry value
-# in a history is >= 100 s away from every other, so an observed ttl() identifies the call that set it.
-import json, sys, hashlib
+# Time: every process of a case runs at one exactly frozen instant (the harness defines system_clock::now()):
+# the recorded history at T0, a recovery child at its "time of recovery" R >= T0 (obs line field "R"): T0 itself,
+# or 1 ms before / exactly at / 1 ms after a deadline that the history attached to some key (also deadlines that
+# were later superseded by expireAt/persist/set), or a day after the last one. Deadlines are >= 20000 s after
+# the instant they are set at and >= 50 s apart, so an observed ttl() identifies the call that set it.
+# A key whose acknowledged deadline D satisfies R >= D must be absent after recovery at R (iora's own rule:
+# expired iff expiry <= now), every other key must show its acknowledged value and deadline.
+import json, sys, hashlib, re
 
+T0_MS = 2000000000000  # the instant every recorded history runs at (harness constant)
 SLACK_MS = 5          # ms rounding (epoch-ms truncation in the log, clock reads around a call)
 MAX_VIOL_PER_KEY = 12  # full violation records per (history, key); the rest is counted
 
@@ -99,6 +105,18 @@ class Kv:
         if a is None or b is None:
             return a is None and b is None
         return a[0] == b[0] and a[1] == b[1] and Kv.exp_match(a[2], b[2])
+
+
+def views_at(e, R):
+    """what a reader at instant R may see of reference entry e"""
+    if e is None or e[2] is None or R is None:
+        return [e]
+    lo, hi = e[2]
+    if R >= hi:
+        return [None]
+    if R >= lo:
+        return [e, None]      # only for deadlines known as an interval (derived from a dump's ttl seconds)
+    return [e]
 
 
 def fmt_entry(e):
@@ -275,8 +293,9 @@ class Judge:
             self.o("violations_not_listed_individually")
 
     # -- KV comparison of an observed dump against per-key admissible sets
-    def kv_compare(self, tl, exact, infl, dump, touched_filter=None):
-        """-> (mismatches [(key, symptom, observed, admissible)], which) ; which in exact/old/new/mixed"""
+    def kv_compare(self, tl, exact, infl, dump, R=None):
+        """-> (mismatches [(key, symptom, observed, admissible-at-R)], which, snapped)
+        which in exact/old/new/mixed/same; snapped = observed state with exact reference deadlines where matched"""
         obs_state = Kv.from_dump(dump)
         new = None
         touched = set()
@@ -284,23 +303,36 @@ class Judge:
             touched = Kv.touched(exact, infl)
             new = Kv.apply(dict(exact), infl)
         mism = []
+        snapped = {}
         saw_old = saw_new = False
         for k in set(exact) | set(obs_state) | (set(new) if new else set()):
             o = obs_state.get(k)
-            adm = [exact.get(k)]
+            ref = [exact.get(k)]
             if new is not None and k in touched:
-                adm.append(new.get(k))
-            ok = any(Kv.match(a, o) for a in adm)
-            if ok:
-                if len(adm) == 2 and not Kv.match(adm[0], adm[1]):
-                    if Kv.match(adm[0], o):
+                ref.append(new.get(k))
+            adm = []
+            for r in ref:
+                adm.extend(views_at(r, R))
+            hit = next((a for a in adm if Kv.match(a, o)), "none")
+            if hit != "none":
+                if o is not None:
+                    snapped[k] = hit
+                if len(ref) == 2:
+                    v0, v1 = views_at(ref[0], R), views_at(ref[1], R)
+                    in0, in1 = any(Kv.match(a, o) for a in v0), any(Kv.match(a, o) for a in v1)
+                    if in0 and not in1:
                         saw_old = True
-                    else:
+                    elif in1 and not in0:
                         saw_new = True
                 continue
-            mism.append((k, self.kv_symptom(tl, k, o, adm), o, adm))
+            if o is not None:
+                snapped[k] = o
+            sym = self.kv_symptom(tl, k, o, adm)
+            if o is not None and any(r is not None and Kv.match(r, o) for r in ref):
+                sym = "expired-visible"          # the acknowledged entry, but its deadline is <= R
+            mism.append((k, sym, o, adm))
         which = "exact" if infl is None else ("mixed" if saw_old and saw_new else "new" if saw_new else "old" if saw_old else "same")
-        return mism, which
+        return mism, which, snapped
 
     @staticmethod
     def kv_symptom(tl, k, o, adm):
@@ -315,6 +347,56 @@ class Judge:
             return "foreign"
         return "torn"
 
+    # -- naming only: where the time of recovery R lies relative to the deadlines of the history
+    def time_class(self, tl, nc, infl, exact, R):
+        started = tl.calls[:nc + (1 if infl is not None else 0)]
+        ds = set()
+        for c in started:
+            if c.get("threw"):
+                continue
+            if c["kind"] in ("setttl", "batchttl"):
+                ds.add(c["t0"] + c["ttl"] * 1000)
+            elif c["kind"] == "expireat":
+                ds.add(c["when"])
+        live = {e[2][0] for e in exact.values() if e[2] is not None}
+        if infl is not None:
+            live |= {e[2][0] for e in Kv.apply(dict(exact), infl).values() if e[2] is not None}
+        for d in ds:
+            if abs(R - d) <= 1:
+                rel = "before" if R < d else ("at" if R == d else "after")
+                return f"{rel}-{'live' if d in live else 'superseded'}-deadline"
+        if ds and R > max(ds):
+            return "after-all-deadlines"
+        return "other-instant"
+
+    # -- coverage only: is this image one where an expiry change (persist / expireAt) was acknowledged after the
+    #    compaction that wrote the key's earlier deadline into the snapshot, with nothing but such value-less
+    #    changes on that key since, and is it recovered at or after that earlier deadline while the key is alive?
+    def expiry_change_after_snapshot(self, tl, nc, exact, R):
+        cur = {}
+        snap_deadline = {}
+        xonly = {}
+        for i, c in enumerate(tl.calls[:nc]):
+            if c.get("threw"):
+                continue
+            before = dict(cur)
+            cur = Kv.apply(cur, c)
+            for key in Kv.touched(before, c):
+                if c["kind"] in ("persist", "expireat") and key in before and key in snap_deadline:
+                    xonly[key] = xonly.get(key, True) and True
+                else:
+                    xonly[key] = False
+            s_, e_ = c["ops"]
+            if any(o["k"] == "r" for o in tl.ops[s_:e_]):      # a compaction ran at the end of this call
+                snap_deadline = {k: e[2][0] for k, e in cur.items() if e[2] is not None}
+                xonly = {}
+        for key, ok in xonly.items():
+            if ok and key in snap_deadline and R >= snap_deadline[key]:
+                e = exact.get(key)
+                if e is not None and views_at(e, R) == [e]:
+                    return True
+        return False
+
     # -- one observation line
     def line(self, ln):
         lvl = ln["lvl"]
@@ -324,21 +406,28 @@ class Judge:
             sec[s["sec"]] = s
         pre = f"C11:{self.store}:"
         coords = dict(k=k, b=b)
+        R = ln.get("R")
+        if R is not None and R != T0_MS:
+            coords["R"] = R
         if lvl == 1:
             tl = self.tl0
             nc, infl, cls = tl.position(k, b, bool(ln.get("torn")))
             exact = tl.states[nc]
             lineage = cls
+            if self.store == "kv" and R is not None and R != T0_MS:
+                lineage = cls + "@" + self.time_class(tl, nc, infl, exact, R)
+                if self.expiry_change_after_snapshot(tl, nc, exact, R):
+                    self.o("kv_expiry_change_after_compaction_recovered_after_old_deadline")
         else:
-            parent = self.l1.get((k, b))
+            parent = self.l1.get((k, b, R))
             if parent is None:
                 return
             k2, b2 = ln["k2"], ln["b2"]
             coords.update(k2=k2, b2=b2)
-            ptl, pnc, pinfl, pcls, psec = parent
+            ptl, pnc, pinfl, pcls, psec, pbase = parent
             cont = psec["cont"]
             if self.store == "kv":
-                base = Kv.from_dump(psec["d0"]["dump"])
+                base = pbase
             else:
                 base = Js.from_dump(psec["d0"]["dump"])
             tl = Timeline(self.store, base, cont["calls"], cont["ops"], ptl.hist_vals, ptl.all_vals)
@@ -357,7 +446,9 @@ class Judge:
                 exact = tl.states[nc]
         self.images += 1
         self.o(f"{self.store}_images_judged")
-        self.o(f"{self.store}_class:{lineage}")
+        self.o(f"{self.store}_class:{re.sub('@[a-z-]+', '', lineage)}")
+        for t in re.findall('@([a-z-]+)', lineage)[:1]:
+            self.o(f"{self.store}_time_of_recovery:{t}")
         inflkind = infl["kind"] if infl else "-"
         info = dict(coords, lineage=lineage, inflight=inflkind, level=lvl)
 
@@ -367,7 +458,7 @@ class Judge:
                 phase = "reopen" if "open" not in sec else ("cont" if "cont" not in sec else "cont-reopen")
                 self.viol(pre + lineage + ":" + phase + "-hung", f"child never finished ({phase} phase) on the image cut at {coords}", info)
             else:
-                self.out.append(dict(t="retry", **coords))
+                self.out.append(dict(t="retry", **coords))  # coords carry R when the recovery ran at a deadline instant
             return
         if st == "exit:86":
             # the child was stopped by a sanitizer report; vf.py keys the report itself from the judge's stderr
@@ -387,29 +478,33 @@ class Judge:
             return
 
         if self.store == "kv":
-            self.kv_image(tl, nc, infl, exact, sec, lineage, info, lvl, k, b)
+            self.kv_image(tl, nc, infl, exact, sec, lineage, info, lvl, k, b, R)
         else:
-            self.js_image(tl, nc, infl, exact, sec, lineage, info, lvl, k, b)
+            self.js_image(tl, nc, infl, exact, sec, lineage, info, lvl, k, b, R)
 
-    def kv_image(self, tl, nc, infl, exact, sec, lineage, info, lvl, k, b):
+    def kv_image(self, tl, nc, infl, exact, sec, lineage, info, lvl, k, b, R=None):
         pre = "C11:kv:"
         d0 = sec["d0"]["dump"]
-        mism, which = self.kv_compare(tl, exact, infl, d0)
+        mism, which, base = self.kv_compare(tl, exact, infl, d0, R)
+        if R is not None and R != T0_MS:
+            self.o("kv_recovered_at_a_deadline_instant")
+            if any(e is not None and e[2] is not None and R >= e[2][1] for e in exact.values()):
+                self.o("kv_recovered_with_some_acknowledged_deadline_passed")
         self.o("kv_recovered_" + which)
         if any(e.get("miss") for e in d0["keys"]):
             self.o("kv_dump_key_listed_but_get_empty")
         for key, sym, o, adm in mism:
             self.viol(pre + lineage + ":" + sym,
-                      f"after recovery key {keyname(key)} shows {fmt_entry(o)}; admissible: {' | '.join(fmt_entry(a) for a in adm)} "
+                      f"after recovery{'' if R in (None, T0_MS) else ' at instant T0+%d ms' % (R - T0_MS)} key {keyname(key)} shows "
+                      f"{fmt_entry(o)}; admissible: {' | '.join(fmt_entry(a) for a in adm)} "
                       f"(in-flight call: {info['inflight']})",
                       dict(info, key=key, observed=fmt_entry(o), admissible=[fmt_entry(a) for a in adm]))
         if lvl == 1:
-            self.l1 = {(k, b): (tl, nc, infl, lineage, sec)}
-        # continuation on the recovered store
+            self.l1 = {(k, b, R): (tl, nc, infl, lineage, sec, base)}
+        # continuation on the recovered store (base: what recovery showed, with the exact reference deadlines)
         cont = sec.get("cont")
         if not cont:
             return
-        base = Kv.from_dump(d0)
         ctl = Timeline("kv", base, cont["calls"], cont["ops"], tl.hist_vals, tl.all_vals)
         threw = [c for c in cont["calls"] if c.get("threw")]
         for c in threw:
@@ -428,7 +523,7 @@ class Judge:
         for c in cont["calls"]:
             touched |= Kv.touched(cur, c)
             cur = Kv.apply(cur, c)
-        mism1, _ = self.kv_compare(ctl, final, None, sec["d1"]["dump"])
+        mism1, _, _ = self.kv_compare(ctl, final, None, sec["d1"]["dump"], R)
         compacted = any(o["k"] == "r" for o in cont["ops"])
         self.o("kv_continuations_checked")
         if compacted:
@@ -473,7 +568,7 @@ class Judge:
             return "in-crc"
         return "interior"
 
-    def js_image(self, tl, nc, infl, exact, sec, lineage, info, lvl, k, b):
+    def js_image(self, tl, nc, infl, exact, sec, lineage, info, lvl, k, b, R=None):
         pre = "C11:json:"
         mem, per = exact
         adm = [per]
@@ -499,7 +594,7 @@ class Judge:
                       dict(info, observed_keys=len(d0), admissible_keys=[len(a) for a in adm]))
         self.o("json_recovered_" + (which or "inadmissible"))
         if lvl == 1:
-            self.l1 = {(k, b): (tl, nc, infl, lineage, sec)}
+            self.l1 = {(k, b, R): (tl, nc, infl, lineage, sec, None)}
         cont = sec.get("cont")
         if not cont:
             return
